@@ -54,14 +54,14 @@ Qed.
 (** ** Prompt final replies (C02) *)
 Theorem prompt_yield_final_proof : forall lookup d callee req opts args kw inv,
     dealer_wf lookup d -> cget (d_invs d) (callee, req) = Some inv ->
-    opt_bool opts "progress" = false -> inv_inprogress inv = false ->
+    opt_bool opts "progress" = false ->
     let cid := inv_call inv in
     exists d', sync_yield d callee req opts args kw = (d', [(fst cid, RResult (snd cid) [] args kw)]) /\
                gone d' cid (callee, req).
 Proof.
-  intros lookup d callee req opts args kw inv WF Hi Hp Hin cid.
+  intros lookup d callee req opts args kw inv WF Hi Hp cid.
   pose proof (wf_inv_pending lookup d WF _ _ Hi) as (Hc & _).
-  rewrite (sync_yield_owner _ _ _ _ _ _ _ Hi), Hp, Hin, Hc.
+  rewrite (sync_yield_owner _ _ _ _ _ _ _ Hi), Hp, Hc.
   eexists. split; [reflexivity | apply gone_drop_call].
 Qed.
 
@@ -85,7 +85,7 @@ Theorem cancel_kill_then_answer_proof : forall lookup d caller req opts ikey inv
     pending d (caller, req) ikey inv x -> inv_canceled inv = false ->
     callee_can_cancel lookup inv = true ->
     let d1 := fst (cancel lookup d caller req opts) in
-    (forall yopts args kw, opt_bool yopts "progress" = false -> inv_inprogress inv = false ->
+    (forall yopts args kw, opt_bool yopts "progress" = false ->
        exists d2, sync_yield d1 (fst ikey) (snd ikey) yopts args kw = (d2, [(caller, RResult req [] args kw)]) /\
                   gone d2 (caller, req) ikey) /\
     (forall det err args kw,
@@ -101,8 +101,8 @@ Proof.
   set (inv' := inv_set_timer (inv_set_canceled inv true) None) in *.
   assert (Hcall' : inv_call inv' = (caller, req)) by exact Hcall.
   split.
-  - intros yopts args kw Hpr Hin.
-    destruct (prompt_yield_final_proof lookup d1 (fst ikey) (snd ikey) yopts args kw inv' WF1 Hi' Hpr Hin) as (d2 & E2 & G2).
+  - intros yopts args kw Hpr.
+    destruct (prompt_yield_final_proof lookup d1 (fst ikey) (snd ikey) yopts args kw inv' WF1 Hi' Hpr) as (d2 & E2 & G2).
     rewrite Hcall' in E2, G2. cbn [fst snd] in E2. rewrite pair_eta in G2. eauto.
   - intros det err args kw.
     destruct (prompt_error_proof lookup d1 (fst ikey) (snd ikey) det err args kw inv' WF1 Hi') as (d2 & E2 & G2).
